@@ -92,6 +92,8 @@ def run_svc(case: dict[str, Any], mutant: str | None = None) -> dict[str, Any]:
             kw["sessions"] = cfg["sessions"]
         if cfg["skip"]:
             kw["skip"] = cfg["skip"]
+        if cfg.get("reset"):
+            kw["reset"] = int(cfg["reset"])
         with serving(server):
             sc = ServicesScanner(ServicesScannerConfig(**kw))
             try:
@@ -123,7 +125,8 @@ def run_svc(case: dict[str, Any], mutant: str | None = None) -> dict[str, Any]:
         "kind": "svc",
         "C": {"has": has, "req": den["sessions"] or [], "skipAll": den["skip_all"],
               "skip": [[s, sid] for s, sid in den["skip"]], "respIds": bool(cfg["resp_ids"]),
-              "tp": bool(cfg.get("defaults", False)), "start": 1, "check": bool(cfg["check"])},
+              "tp": bool(cfg.get("defaults", False)), "start": 1, "check": bool(cfg["check"]),
+              "reset": int(cfg.get("reset") or 0)},
         "pl": PROBE_LENS,
         "tab": out["tab"],
         "ev": [_event(t, q, r) for t, q, r in out["log"]],
